@@ -6,6 +6,8 @@ import FordModel.StrLink
 import FordModel.ReadMore
 import FordModel.Relurl
 import FordModel.Assets
+import FordModel.Footnotes
+import FordModel.Memo
 import FordModel.Generated.C09
 namespace Ford
 open Proto Ford.Path Ford.Nav Ford.Url Ford.StrLink Ford.ReadMore Ford.Relurl Ford.Assets Ford.Generated.C09
@@ -87,6 +89,22 @@ def itemsOf : Nat → Nat → List Str → List (Seg × List (List Seg)) × List
     | [] => ([], [])
 
 def locOf (l : Str) : List Seg := if l == ['.'] || l == [] then [] else splitSlash l
+
+/-- per conversion: site, blank ("1"/"0"), nDefs, defs…, nRefs, refs…; fuel = number of fields -/
+def convsOf : Nat → List Str → List Footnotes.Conv
+  | 0, _ => []
+  | fuel + 1, site :: blank :: r =>
+    let (defs, r1) := takeCounted r
+    let (refs, r2) := takeCounted r1
+    match Footnotes.siteOf site with
+    | some st => ⟨st, blank == ['1'], defs, refs⟩ :: convsOf fuel r2
+    | none => []
+  | _, _ => []
+
+/-- pairs `href`, `page` (absolute paths) -/
+def callsOf : List Str → List (Str × List Seg)
+  | h :: p :: r => (h, segsOf p) :: callsOf r
+  | _ => []
 
 end C09D
 
@@ -204,6 +222,21 @@ def dispatchC09 : List Str → Option (List Str)
         let (files, _) := takeCounted rest
         some (s "ok" :: (pageWrites pageTables ⟨locOf loc, stem, items, files⟩).map render)
       | _ => some [s "bad-request"]
+    else if cmd == s "c09.footnotes" then
+      -- the conversions of a run in order -> per conversion `noteIds|refIds` (labels joined by `,`)
+      some (s "ok" :: (Footnotes.convertAll mdTables [] [] (convsOf args.length args)).map fun o =>
+        joinSep ',' o.noteIds ++ '|' :: joinSep ',' o.refIds)
+    else if cmd == s "c09.mdcheck" then
+      some [ (if Footnotes.tablesOk mdTables then ['1'] else ['0']),
+             joinSep ',' (mdTables.resets.map Footnotes.siteName ++ mdTables.resetsFirst.map (fun x => Footnotes.siteName x ++ s " (first conversion only)")),
+             (if Memo.faithful memoKey then ['1'] else ['0']), Memo.keyName memoKey ]
+    else if cmd == s "c09.memo" then
+      -- a sequence of calls of the relurl filter (absolute href, absolute page path), no symbolic links:
+      -- the href each call returns, through the cache with the regenerated key
+      some (s "ok" :: (Memo.runCached memoKey
+        (fun h d => match relurl relurlTables { real := fun q => q } d (segsOf h) with
+                    | some r => render r
+                    | none => s "unchanged") [] (callsOf args)))
     else if cmd == s "c09.quote" then
       match args with
       | [x] => some [quote x]
